@@ -455,6 +455,10 @@ class Vector(Qube):
             recursive   True to include the derivatives.
         """
 
+        if self._numer_ != (3,):
+            raise ValueError('%s.ucross() requires vectors of length 3'
+                             % type(self).__name__)
+
         return self.cross(arg, recursive=recursive).unit(recursive=recursive)
 
     #===========================================================================
